@@ -284,12 +284,14 @@ def template_bonds(ctx):
     """The templates as loaded (patches applied) are the reference every added atom is judged against; Templates.tla requires
     that each bond a template lists joins atoms whose template coordinates are a covalent bond length apart (otherwise
     "template-consistent" has no meaning).  Terminus patches applied to the water template at load time (CWAT, NWAT, ...) are
-    never used: terminus patches are applied to amino-acid residues only."""
+    never used: terminus patches are applied to amino-acid residues only; neither is NPRO (see below)."""
     import numpy as np
     d = gen.definitions()
     bonds, labels = [], []
     for rn in sorted(d.map):
-        if rn.endswith("WAT") and rn != "WAT":
+        if (rn.endswith("WAT") and rn != "WAT") or rn == "NPRO":
+            # NPRO = the charged N-terminus patch applied to proline at load time (H3 falls on CD): set_termini gives an
+            # N-terminal proline the two-hydrogen patch instead, so this object is never a run-time reference
             continue
         r = d.map[rn]
         for an, a in r.map.items():
@@ -299,8 +301,16 @@ def template_bonds(ctx):
                 o = r.map[b]
                 dist = float(np.linalg.norm(np.array([a.x, a.y, a.z], dtype=float) - np.array([o.x, o.y, o.z], dtype=float)))
                 bonds.append({"h": an.startswith("H") or b.startswith("H"), "s": an[0] in "SP" or b[0] in "SP",
-                              "d": min(int(round(dist * 1000)), 10 ** 8)})
+                              "d": min(int(round(dist * 1000)), 10 ** 8), "pair": False})
                 labels.append((rn, an, b, dist))
+        names = sorted(r.map)
+        xyz = np.array([[r.map[n].x, r.map[n].y, r.map[n].z] for n in names], dtype=float)
+        for i, an in enumerate(names):
+            dd = np.linalg.norm(xyz - xyz[i], axis=1)
+            for j in np.nonzero(dd < 1.0)[0]:
+                if j > i and names[j] not in r.map[an].bonds and an not in r.map[names[j]].bonds:
+                    bonds.append({"h": False, "s": False, "d": int(round(float(dd[j]) * 1000)), "pair": True})
+                    labels.append((rn, an, names[j], float(dd[j])))
     tf = core.write_json(os.path.join(ctx.work, "templates.json"), bonds)
     r = core.run_tlc("Templates", "Templates.cfg", ctx.work, workers=1, env={"TRACE_FILE": tf}, timeout=600)
     core.need_ok(r, "Templates")
@@ -313,7 +323,7 @@ def template_bonds(ctx):
     for k in sorted(bad)[:20]:
         rn, an, b, dist = labels[k - 1]
         ctx.violation({"clause": "TemplateBondsChemical", "residue": rn, "bond": f"{an}-{b}"},
-                      f"template {rn}: atoms {an} and {b} are listed as bonded but their template coordinates are {dist:.3f} A apart",
+                      f"template {rn}: atoms {an} and {b}: template coordinates {dist:.3f} A apart (bonded pairs must be a covalent bond length apart, other pairs at least 0.85 A)",
                       {"residue": rn, "a": an, "b": b, "distance": dist})
 
 
